@@ -29,7 +29,7 @@ ASSUMPTIONS = [
     "reshape_pmap only uses len(devices); the host has one CPU device, lists of that device simulate n devices",
 ]
 CONFIG = {
-    "quick": {"examples": 640, "shards": 16, "shrink_s": 40, "time_budget_s": 240},
+    "quick": {"examples": 960, "shards": 16, "shrink_s": 40, "time_budget_s": 240},
     "thorough": {"examples": 8000, "shards": 16, "shrink_s": 200, "time_budget_s": 1500},
 }
 LEAD_SIZES = [2, 3, 5, 7, 4, 6]
